@@ -242,6 +242,15 @@ def run_single(case):
       cur = run_sig(mk(fs), cur)
     if not lib_rf(h).same(rF ** n):
       return bad("algebra:pow:polys", "f**n polynomials differ from the n-fold product", n, str(h), nt)
+    if n in (5, 6) and (len(fs[1]) - 1) * n >= 10:
+      # the product has ten or more feedback taps: run it, against the factor applied n times
+      cur_n = list(x)
+      for _ in range(n):
+        cur_n = run_sig(mk(fs), cur_n)
+      got_n = run_sig(mk(fs) ** n, x)
+      if not eqs(got_n, cur_n):
+        return bad("algebra:pow:high-order", "f**%d (feedback order %d) is not f applied %d times" % (n, (len(fs[1]) - 1) * n, n),
+                   cur_n[:4], got_n[:4], nt)
     if n >= 2 and F(fs[0][0]) != 0 and not lib_rf(mkF(fs) ** -n).same((rF ** n).inv()):
       return bad("algebra:pow:negative", "f**-n is not the reciprocal of the n-fold product", n, str(mkF(fs) ** -n), nt)
   if F(fs[0][0]) != 0:
